@@ -1,4 +1,4 @@
-(* TieC20.v — facts regenerated from /repo/type/conversion/conversion.go (gen/Facts.v) equal what
+(* TieC20.v — facts regenerated from /repo/type/conversion/conversion.go and bus/proxy.go (gen/Facts.v) equal what
    the model Conv.v was written from. *)
 From Coq Require Import List String ZArith NArith Bool.
 From QV Require Import Conv Facts C20Run.
@@ -94,4 +94,30 @@ Lemma tie_struct_shape : f_c20_struct_shape =
     "if2 err != nil"; "break2" ].
 Proof. reflexivity. Qed.
 Lemma tie_struct_calls : f_c20_struct_calls = ["v.Field(i), w.Field(j)"].
+Proof. reflexivity. Qed.
+
+(* ---------- the entry points (Conv.enter) ---------- *)
+
+(* ConvertFrom is convertFrom on the two values *)
+Lemma tie_convertfrom_stmts : f_c20_convertfrom_stmts =
+  [ "return convertFrom(reflect.ValueOf(me), reflect.ValueOf(you))" ].
+Proof. reflexivity. Qed.
+
+(* DecodeFrom: a freshly allocated value of the remote type receives the decoded bytes and is
+   converted; nothing is kept from one call to the next (EDecodeFrom: the intermediate value is the
+   value that was encoded) *)
+Lemma tie_decodefrom_stmts : f_c20_decodefrom_stmts =
+  [ "from := reflect.New(typ)";
+    "if err := d.Decode(from.Interface()); err != nil { return err }";
+    "return convertFrom(reflect.ValueOf(x), from)" ].
+Proof. reflexivity. Qed.
+
+(* Call2, once the reply is there: read directly when the advertised signature is the caller's own
+   text, otherwise DecodeFrom with the type of the parsed advertised signature, whose refusal is
+   returned (ECall2: same_sigb ? COk w : convert); no other way out *)
+Lemma tie_call2_stmts : rev (firstn 4 (rev f_c20_call2_stmts)) =
+  [ "buf2 := bytes.NewBuffer(res)";
+    "dec := encoding.NewDecoder(permission, buf2)";
+    "if sig == ret.Signature() { err = ret.Read(dec) if err != nil { return fmt.Errorf("""", err) } } else { typ, err := signature.Parse(sig) if err != nil { return fmt.Errorf("""", err) } err = conversion.DecodeFrom(dec, ret.resp, typ.Type()) if err != nil { return fmt.Errorf("""", sig, ret.Signature(), err) } }";
+    "return nil" ].
 Proof. reflexivity. Qed.
